@@ -16,7 +16,7 @@ from . import c01, c11
 ID = "C02"
 LEVEL = "exploration"
 BUILDS = ["rel"]
-BUDGET_S = {"quick": 170, "thorough": 3000}
+BUDGET_S = {"quick": 600, "thorough": 3000}
 RULE = ("Repositories of 1-4 files (7 hosts) whose uniquely named blocks carry random sort / unique / pattern / count / Lua rules "
         "(violating or not, so untouched blocks have pre-existing violations). Each block receives one edit class: INSIDE "
         "(content line inserted, deleted or replaced), TAG+INSIDE (an attribute and a content line), TAG-ONLY (one digit inside an attribute value of the start tag; also "
